@@ -140,8 +140,12 @@ func genOutCase(r *simrt.Rand, tier string, prop string) *OutCase {
 	if capHint < 4096 {
 		big = false
 	}
-	if r.Bool(0.25) && prop != "C17" {
-		// several concurrent writers with record framing
+	if (prop != "C17" && r.Bool(0.25)) || (prop == "C17" && r.Bool(0.2)) {
+		// several concurrent writers with record framing (C17: the bound must hold for the sum of
+		// what concurrent callers leave behind; sizes are placed around a share of the bound)
+		if prop == "C17" && c.Eng.MaxWBuf > 4 {
+			capHint = c.Eng.MaxWBuf / 2
+		}
 		c.Multi = true
 		nw := r.Range(2, 3)
 		for w := 0; w < nw; w++ {
@@ -737,6 +741,17 @@ func (s *outState) doOp(op WOp, writer int, seq *int) {
 		cs.FileBytes += int64(acc)
 	}
 	// ---- C17: the bound, on the true backlog -------------------------------------------
+	if M > 0 && isBuf && total > 0 && s.c.Multi && err == nil {
+		// concurrent writers: what the other writers' calls still in progress have queued is not
+		// in the accounting yet, so the measured backlog is a lower bound of the true one - a
+		// measured excess is an excess; "fits" cannot be judged here
+		if after := s.held(); after > M {
+			w.Fail("C17", "bound-exceeded", opName(op.Op)+"/concurrent", "after %s of %d bytes by one of %d concurrent writers nbio holds at least %d unsent bytes, bound %d", opName(op.Op), total, len(s.c.Writers), after, M)
+		}
+		if d := before + int64(total) - M; d >= -int64(total) && d <= int64(total) {
+			s.nearBound = true
+		}
+	}
 	if M > 0 && isBuf && total > 0 && !s.c.Multi {
 		after := s.held()
 		if after > s.maxHeld {
